@@ -7,7 +7,7 @@ From Coq Require Import Relations.
 From GV Require Import Base.Prelude Lang.Ast Exec.Value Exec.Schema Exec.Spec Exec.SpecProps Exec.Typing
   Valid.Rules Valid.RulesBase Valid.RulesSpec Valid.RulesProps
   Valid.Rules13 Valid.ToExec Valid.RulesLit Valid.RulesTyping Valid.RulesTypingGlue
-  Valid.ToOverlapProps Valid.OverlapBridge.
+  Valid.ToOverlapProps Valid.OverlapBridge Valid.RulesDir Valid.RulesDirProps.
 
 (* names of the fragment spreads anywhere inside a selection *)
 Fixpoint xspr (x : selection) : list Value.str :=
@@ -237,3 +237,34 @@ Section Glue.
     apply (proj1 (no_fragment_cycles_nil d [] Hnd Hc) eq_refl).
   Qed.
 End Glue.
+
+(* ---- the root operation type exists: KnownOperationTypes (Valid/RulesDir.v, rule 23) ---- *)
+(* the rule's view of the schema agrees with the execution model's: a mutation type is present
+   when the rule believes so (the query type always is, in Exec.Schema) *)
+Definition roots_agree (ds : dschema) (s : schema) : Prop :=
+  has_root ds 1 = true -> s_mutation s <> None.
+
+Theorem rules_root_exists fl d x ds s : to_exec fl None d = Some x ->
+  roots_agree ds s -> rule_known_operation_types ds d = [] ->
+  exists rt, root_type s (d_kind x) = Some rt.
+Proof.
+  unfold to_exec. intros Hx Hag Hr.
+  destruct (filter (op_selected None) (doc_defs d)) as [|opn [|n2 l2]] eqn:Ef; try discriminate.
+  2:{ exfalso. destruct opn as [ko oattrs]. destruct ko; try discriminate Hx.
+      destruct oattrs as [|[|ss| | | |] [|a1 [|a2 [|vds [|a4 [|[| | | | |o] r]]]]]]; discriminate Hx. }
+  assert (Hopn : In opn (doc_defs d)).
+  { assert (H : In opn (filter (op_selected None) (doc_defs d))) by (rewrite Ef; cbn; auto).
+    apply filter_In in H as [H _]. exact H. }
+  destruct opn as [ko oattrs]. destruct ko; try (cbn in Hx; discriminate Hx).
+  destruct oattrs as [|[|ss| | | |] [|a1 [|a2 [|vds [|a4 [|[| | | | |o] r]]]]]]; try (cbn in Hx; discriminate Hx).
+  pose proof (proj1 (known_operation_types_nil ds d) Hr _ o Hopn eq_refl) as Hroot.
+  destruct (o =? 0) eqn:E0.
+  - destruct (all_some (map (vardef_of fl) (attr_list vds))); [|discriminate].
+    destruct (sels_of fl ss); [|discriminate]. destruct (all_some (map (frag_of fl) _)); [|discriminate].
+    inversion Hx; subst x. cbn. eauto.
+  - destruct (o =? 1) eqn:E1; [|discriminate].
+    destruct (all_some (map (vardef_of fl) (attr_list vds))); [|discriminate].
+    destruct (sels_of fl ss); [|discriminate]. destruct (all_some (map (frag_of fl) _)); [|discriminate].
+    inversion Hx; subst x. cbn. apply N.eqb_eq in E1. subst o.
+    destruct (s_mutation s) as [m|] eqn:Em; [eauto|]. exfalso. exact (Hag Hroot Em).
+Qed.
